@@ -494,6 +494,24 @@ def check_optimal_and_inline_pa(run, A):
                     okp = mid.op == 'mu' or any(x.op == 'mu' for x in unwrap_gamma(mid))
     run.check(okp, 'R-SEL', 'inline spatial/spectral alignment: posterior uses the best permutation found', fn2.loc(), '', 'the spatial stream is not indexed by the arg-max permutation',
               construct=f'R-SEL::{q2}::use-best')
+    # the criterion is evaluated on the very log-pdf that is finally used: candidate(perm) and final(best) are the same expression
+    from ..walk import struct_eq_modulo
+    cand = None
+    for L in g2.loops:
+        for e in L.body_events:
+            if e.kind == 'call' and is_call_to(e.term, 'numpy.amax'):
+                cand = (call_arg(e.term, 0), L)
+    final = strip_views(call_arg(calls[0], 1)) if calls else None
+    best_mus = [x for x in walk_terms(final) if x.op == 'mu'] if final is not None else []
+    if cand is None or final is None or not best_mus:
+        raise AnalysisError(f'{q2}: the search criterion (maximum of the candidate log-pdf inside the permutation loop) or the final log-pdf handed to '
+                            f'log_pdf_to_affiliation is no longer recognised')
+    cterm, L = cand
+    loopvars = [x for x in walk_terms(cterm) if x.op == 'elem' and x.extra is L]
+    same = any(struct_eq_modulo(strip_views(cterm), final, [(lv, m)]) for lv in loopvars for m in best_mus)
+    run.check(same, 'R-SEL', 'inline spatial/spectral alignment: the searched criterion and the final posterior use the same permuted log-pdf', fn2.loc(), '',
+              'the candidate log-pdf scored inside the search differs from the log-pdf built with the winning permutation (e.g. the other stream is permuted): '
+              'the applied permutation is the inverse of the optimal one for K >= 3', construct=f'R-SEL::{q2}::criterion-equals-use')
 
 
 def check_dhtv_copy(run, A):
